@@ -1,4 +1,5 @@
 import NitroVerif.Lemmas.GqlPrintOwnFitsTs
+import NitroVerif.Lemmas.GqlPrintOwnFlatLead
 /-!
 C16 over nitrogql's own parser: the printed TEXT of a document is a C07 rendering — glue of `own_render` (generic theorem),
 the flat forms of C07's renderings and the `Fits` walk over the printing functions.
@@ -84,6 +85,28 @@ theorem own_text_tsext_noLead (doc : List TsItem) (hwf : ∀ d ∈ doc, WFTsItem
     rTsDoc (gaps (pre0 ++ text (printTsExtDoc doc))) doc = pre0 ++ text (printTsExtDoc doc) := by
   rw [flat_tsDoc, ← cTsDoc_noLead doc hnl]
   exact own_text_tsext_lead doc hwf hok hq pre0 hpre
+
+/-! ### the general case: renderings with leading separators (`NitroVerif.DocParseL`) -/
+
+/-- type-system documents: the printed text (after any prefix of layout characters) is the rendering WITH leading
+    separators of the document under the trivia read off the text -/
+theorem own_text_ts (doc : List TsItem) (hwf : ∀ d ∈ doc, WFTsItem d) (hok : ∀ d ∈ doc, itemOK d = true)
+    (hq : strsQ (printTsDoc doc) = true) (pre0 : List Char) (hpre : ∀ x ∈ pre0, isGapC x = true) :
+    DocParseL.rTsDoc (gaps (pre0 ++ text (printTsDoc doc))) doc = pre0 ++ text (printTsDoc doc) := by
+  rw [flatL_tsDoc]
+  exact own_text_ts_lead doc hwf hok hq pre0 hpre
+
+theorem own_text_tsext (doc : List TsItem) (hwf : ∀ d ∈ doc, WFTsItem d) (hok : ∀ d ∈ doc, itemOK d = true)
+    (hq : strsQ (printTsExtDoc doc) = true) (pre0 : List Char) (hpre : ∀ x ∈ pre0, isGapC x = true) :
+    DocParseL.rTsDoc (gaps (pre0 ++ text (printTsExtDoc doc))) doc = pre0 ++ text (printTsExtDoc doc) := by
+  rw [flatL_tsDoc]
+  exact own_text_tsext_lead doc hwf hok hq pre0 hpre
+
+/-- the parser model on a rendering with leading separators: the document, up to positions -/
+theorem parseTs_lead_erase (τ : Trivia) (hτ : ∀ q, Ws (τ q)) (doc : List TsItem) (hne : doc ≠ [])
+    (hwf : ∀ d ∈ doc, WFTsItem d) (hn : ∀ d ∈ doc, NormalItem d) :
+    ∃ A, Build.parseTs (DocParseL.rTsDoc τ doc) = .ok A ∧ GqlTokens.eraseTsDoc A = GqlTokens.eraseTsDoc doc :=
+  ⟨_, DocParseL.parseTs_rTsDoc τ hτ doc hne hwf, DocParseL.tsErase_wpTsDoc τ _ doc hn⟩
 
 /-- every name / number / variable token the printer writes for a well-formed document is a safe chunk for the template
     writer (the hypothesis of C16's template layer) -/
